@@ -836,7 +836,7 @@ Theorem try_remove_backup_methods : forall backup p w,
 Proof.
   intros backup p w. unfold try_remove_backup.
   apply bind_ext; [reflexivity|]. intros seen w1 _.
-  destruct seen as [i|]; [|reflexivity].
+  destruct seen as [[i|]|]; [|reflexivity|reflexivity].
   apply bind_ext; [reflexivity|]. intros r w2 _.
   destruct r as [fi|e]; [|reflexivity].
   destruct (negb (is_dir_info fi)); [reflexivity|].
@@ -854,7 +854,7 @@ Section GuardRemoveBackup.
   Proof.
     intros backup p w HP. unfold try_remove_backup.
     apply bind_ext; [reflexivity|]. intros seen w1 _.
-    destruct seen as [i|]; [|reflexivity].
+    destruct seen as [[i|]|]; [|reflexivity|reflexivity].
     apply bind_ext; [api_simpl; rewrite HP; reflexivity|]. intros r w2 _.
     destruct r as [fi|e]; [|reflexivity].
     destruct (negb (is_dir_info fi)); [api_simpl; rewrite HP; reflexivity|].
